@@ -558,8 +558,10 @@ package xpath
 //@   ensures[nonnil@C15] result != nil
 //@   requires[nonnil-args@C15] q != nil && arg1 != nil
 //@ func stringJoinFunc$1
-//@   props C15 C04 C05 C13
-//@   theory stream for C04 C05 C14 C13
+//@   props C15 C04 C05 C13 C09
+//@   theory stream for C04 C05 C14 C13 C09
+//@   loop 0 invariant[collects-values@C09] len(parts) == at(0, len(parts)) || len(parts) == at(0, len(parts)) + 1 && parts[len(parts) - 1] == retval(Value, 1)     // a round adds at most the string-value of the node it looked at
+//@   loop 0 invariant[separator@C09] separator == ite(is(retval(Evaluate, 0), string), as(retval(Evaluate, 0), string), ite(is(retval(Evaluate, 0), query) && retval(Select, 0) != nil, retval(Value, 0), ""))     // the separator is the string, or the string-value of the first node of a node-set
 //@   ensures[pure-q@C04,C05] stateless(q) || k(q) == old(k(q)) && epoch(q) == old(epoch(q))
 //@   ensures[pure-arg1@C04,C05] stateless(arg1) || k(arg1) == old(k(arg1)) && epoch(arg1) == old(epoch(arg1))
 //@   conforms functionQuery.Func
